@@ -264,6 +264,8 @@ func genFragmentation(ctx *Ctx, emit func(Case)) {
 	}
 	// (e) BaseX encoder stream: write splits vs one-shot
 	genBasexEncStream(ctx, r, emit, false)
+	// (e') the armor writer (word/line spacer over the BaseX encoder), call by call against the model
+	genArmorWriter(ctx, r, emit)
 	// (f) whole entry points under fragmenting readers (implementation vs the fragmentation-free model)
 	genEntryPointFragmentation(ctx, r, emit)
 }
@@ -712,4 +714,89 @@ func (f *family) ringAndResolver() (*keys.Ring, saltpack.SymmetricKeyResolver) {
 		return parseRing(t[1], t[2], t[3], t[4], t[5], nil), parseResolver(t[6])
 	}
 	return nil, nil
+}
+
+// genArmorWriter: NewArmor62EncoderStream under write splits — per call against Stream.ArmState (how much has
+// reached the underlying writer after every call, and the final text), and the property's predicates on the
+// implementation: the text is the same for every split (= Armor62Seal of the concatenation) and well-formed.
+// Payloads go well beyond one armor line (200 words = 3000 characters ~ 2233 bytes), splits are aligned and
+// misaligned with words, BaseX blocks and lines.
+func genArmorWriter(ctx *Ctx, r *prng.R, emit func(Case)) {
+	types := []saltpack.MessageType{saltpack.MessageTypeEncryption, saltpack.MessageTypeAttachedSignature, saltpack.MessageTypeDetachedSignature}
+	lens := []int{0, 1, 31, 32, 33, 64, 100, 2232, 2233, 2239, 2240, 4466, 4479, 5000}
+	for k := 0; k < ctx.N(10, 120); k++ {
+		lens = append(lens, prng.Pick(r, r.Intn(300), 2000+r.Intn(500), 4300+r.Intn(400), 6600+r.Intn(300), r.Intn(9000)))
+	}
+	for k, n := range lens {
+		typ := types[k%3]
+		brand := prng.Pick(r, "", "KB", "Q7")
+		payload := r.Bytes(n)
+		oneShot, err := saltpack.Armor62Seal(payload, typ, brand)
+		if err != nil {
+			continue
+		}
+		var splits [][]int
+		splits = append(splits, []int{n}, []int{n / 2, n - n/2}, []int{0, n, 0})
+		if n > 100 {
+			splits = append(splits, []int{100, n - 100}, []int{n - 1, 1}, []int{32, 32, n - 64})
+		}
+		if n <= 600 { // byte by byte
+			one := make([]int, n)
+			for i := range one {
+				one[i] = 1
+			}
+			splits = append(splits, one)
+		}
+		var sp []int
+		for left := n; left > 0; {
+			c := prng.Pick(r, 1, 11, 15, 32, 33, 45, 700, 2233, 1+r.Intn(3000))
+			if c > left {
+				c = left
+			}
+			sp = append(sp, c)
+			left -= c
+		}
+		splits = append(splits, sp)
+		for _, sp := range splits {
+			var ws []string
+			off := 0
+			for _, c := range sp {
+				ws = append(ws, keys.Hex(payload[off:off+c]))
+				off += c
+			}
+			wl := "-"
+			if len(ws) > 0 {
+				wl = strings.Join(ws, ",")
+			}
+			line := fmt.Sprintf("st.aw %d %s %s", int(typ), keys.Hex([]byte(brand)), wl)
+			out := goExec(line)
+			emit(Case{Stream: "frag.armorwriter", Line: line, GoOut: out, Branch: fmt.Sprintf("len/2233=%d/writes=%d", n/2233, min(len(sp), 8)),
+				Sample: map[string]interface{}{"op": "NewArmor62EncoderStream under write splits", "payload_len": n, "writes": len(sp)},
+				Direct: func() string {
+					text, ok := okBytesField(out, "out=")
+					if !ok {
+						return fmt.Sprintf("the armor writer failed on a healthy underlying writer: %s -> %s", trunc(line, 300), trunc(out, 100))
+					}
+					if string(text) != oneShot {
+						return fmt.Sprintf("the armored text depends on how the payload is split over Write calls (differs from Armor62Seal of the same %d bytes): type=%d brand=%q write lengths %v — request %s", n, int(typ), brand, sp, trunc(line, 300))
+					}
+					return armorShapeOfText(string(text), payload, typ, brand)
+				}})
+		}
+	}
+}
+
+func okBytesField(out, field string) ([]byte, bool) {
+	if !strings.HasPrefix(out, "ok ") {
+		return nil, false
+	}
+	i := strings.Index(out, field)
+	if i < 0 {
+		return nil, false
+	}
+	h := out[i+len(field):]
+	if j := strings.IndexByte(h, ' '); j >= 0 {
+		h = h[:j]
+	}
+	return unhex(h), true
 }
